@@ -415,6 +415,7 @@ def run(rep):
     rep.check(nf >= 20, "MISSING", "MISSING/sites", "src/solver.rs", "at least twenty lookup sites", str(nf))
     mismatch_siblings(rep, F)
     core.import_rules(rep, "c06", {"TRI-AND", "TRI-OR", "TRI-NOT", "TRI-ALL", "TRI-OF", "TRI-VERDICT"})
+    core.import_rules(rep, "c10", {"T-FIND", "STEP-TOTAL", "INDEX", "T-NESTED", "NESTED-MODEL"})
     core.import_rules(rep, "c07", {"T-PATTERN", "T-SEARCH", "FLAG", "PLAIN-CASE", "AHO-OVERLAP", "T-OFFSET", "LOCKSTEP", "LOWERCASE"})
     rep.floor("T-LOWER", 40)
     rep.floor("OPERAND", 30)
